@@ -2,6 +2,7 @@ package eng
 
 import (
 	"bufio"
+	"bytes"
 	"encoding/hex"
 	"fmt"
 	"go/constant"
@@ -1677,6 +1678,16 @@ func (ev *Evaluator) callFunction(g *ssa.Function, args []any, depth int) (any, 
 			}
 			return nil, nil
 		}
+	case "strings.NewReplacer":
+		if ss, ok := stringsOf(args[0]); ok && len(ss)%2 == 0 {
+			return strings.NewReplacer(ss...), nil
+		}
+	case "strings.(*Replacer).Replace":
+		if rp, ok := args[0].(*strings.Replacer); ok && rp != nil {
+			if sv, ok := args[1].(string); ok {
+				return rp.Replace(sv), nil
+			}
+		}
 	case "regexp.MustCompile", "regexp.Compile":
 		if pat, ok := args[0].(string); ok {
 			re, err := regexp.Compile(pat)
@@ -2132,6 +2143,66 @@ func libraryCall(name string, args []any) (any, *EvalError, bool) {
 				return math.Sqrt(f), nil, true
 			}
 		}
+	case "bytes.HasPrefix", "bytes.HasSuffix", "bytes.Equal", "bytes.Contains", "bytes.Index", "bytes.LastIndex", "bytes.EqualFold", "bytes.Compare":
+		a, ok1 := bytesOfVal(args[0])
+		b, ok2 := bytesOfVal(args[1])
+		if ok1 && ok2 {
+			switch name {
+			case "bytes.HasPrefix":
+				return bytes.HasPrefix(a, b), nil, true
+			case "bytes.HasSuffix":
+				return bytes.HasSuffix(a, b), nil, true
+			case "bytes.Equal":
+				return bytes.Equal(a, b), nil, true
+			case "bytes.Contains":
+				return bytes.Contains(a, b), nil, true
+			case "bytes.Index":
+				return int64(bytes.Index(a, b)), nil, true
+			case "bytes.LastIndex":
+				return int64(bytes.LastIndex(a, b)), nil, true
+			case "bytes.EqualFold":
+				return bytes.EqualFold(a, b), nil, true
+			case "bytes.Compare":
+				return int64(bytes.Compare(a, b)), nil, true
+			}
+		}
+	case "bytes.IndexByte", "bytes.LastIndexByte":
+		if a, ok := bytesOfVal(args[0]); ok && isN(1) {
+			if name == "bytes.IndexByte" {
+				return int64(bytes.IndexByte(a, byte(n(1)))), nil, true
+			}
+			return int64(bytes.LastIndexByte(a, byte(n(1)))), nil, true
+		}
+	case "bytes.IndexAny", "bytes.ContainsAny":
+		if a, ok := bytesOfVal(args[0]); ok && isS(1) {
+			if name == "bytes.IndexAny" {
+				return int64(bytes.IndexAny(a, s(1))), nil, true
+			}
+			return bytes.ContainsAny(a, s(1)), nil, true
+		}
+	case "bytes.TrimSpace", "bytes.ToLower", "bytes.ToUpper":
+		// the result is a fresh slice here (in Go TrimSpace returns a sub-slice: only the bytes are modelled)
+		if a, ok := bytesOfVal(args[0]); ok {
+			switch name {
+			case "bytes.TrimSpace":
+				return BytesOf(bytes.TrimSpace(a)), nil, true
+			case "bytes.ToLower":
+				return BytesOf(bytes.ToLower(a)), nil, true
+			case "bytes.ToUpper":
+				return BytesOf(bytes.ToUpper(a)), nil, true
+			}
+		}
+	case "bytes.TrimLeft", "bytes.TrimRight", "bytes.Trim":
+		if a, ok := bytesOfVal(args[0]); ok && isS(1) {
+			switch name {
+			case "bytes.TrimLeft":
+				return BytesOf(bytes.TrimLeft(a, s(1))), nil, true
+			case "bytes.TrimRight":
+				return BytesOf(bytes.TrimRight(a, s(1))), nil, true
+			case "bytes.Trim":
+				return BytesOf(bytes.Trim(a, s(1))), nil, true
+			}
+		}
 	case "math.Inf":
 		if isN(0) {
 			return math.Inf(int(n(0))), nil, true
@@ -2335,4 +2406,21 @@ type EScanner struct {
 	Split any // *EClosure, *ssa.Function or nil
 	Tok   []byte
 	Done  bool
+}
+
+
+func bytesOfVal(v any) ([]byte, bool) {
+	sl, ok := v.(*ESlice)
+	if !ok {
+		return nil, v == nil
+	}
+	out := make([]byte, 0, len(sl.L))
+	for _, l := range sl.L {
+		b, ok := l.V.(int64)
+		if !ok {
+			return nil, false
+		}
+		out = append(out, byte(b))
+	}
+	return out, true
 }
